@@ -74,13 +74,25 @@ impl Query {
 
 /// Executes a query on the real reader over `bytes`; returns the yielded entries.
 pub fn run_query(bytes: &[u8], q: &Query) -> Result<Vec<Entry>, String> {
+    run_query_on(|| std::io::Cursor::new(bytes), bytes.len(), q)
+}
+
+/// The same query over a source that serves reads in short pieces and with interruptions (an
+/// in-memory file under the alternating transfer policy). The property a caller checks does not
+/// depend on how the source serves reads, so the same oracle applies.
+pub fn run_query_short(bytes: &[u8], q: &Query) -> Result<Vec<Entry>, String> {
+    let ctl = vlib::sio::Ctl::new(vlib::sio::Policy::Alternate);
+    run_query_on(|| vlib::sio::SFile::with_data(&ctl, bytes.to_vec()), bytes.len(), q)
+}
+
+fn run_query_on<R: std::io::Read + std::io::Seek + Clone>(mk: impl Fn() -> R, file_len: usize, q: &Query) -> Result<Vec<Entry>, String> {
     // every stored entry takes at least two bytes of the file: an iterator that yields more than
     // that many entries does not terminate (reported as such, quickly)
     #[allow(non_snake_case)]
-    let SCAN_LIMIT: usize = bytes.len() / 2 + 16;
+    let SCAN_LIMIT: usize = file_len / 2 + 16;
     let r = guarded(|| -> Result<Vec<Entry>, String> {
         let e = |e: grenad::Error| format!("error: {e}");
-        let reader = Reader::new(std::io::Cursor::new(bytes)).map_err(e)?;
+        let reader = Reader::new(mk()).map_err(e)?;
         let mut out: Vec<Entry> = Vec::new();
         match q {
             Query::Scan { rev, mode } => {
@@ -244,9 +256,19 @@ pub fn describe_result(r: &[Entry]) -> String {
     format!("[{}{}] ({} entries)", ks.join(", "), if r.len() > 6 { ", .." } else { "" }, r.len())
 }
 
+/// `check_query` over a short-reading, interrupting source.
+pub fn check_query_short(bytes: &[u8], m: &Model, q: &Query) -> Result<usize, String> {
+    check_result(run_query_short(bytes, q).map_err(|e| format!("{} over a source serving short and interrupted reads -> {e}", q.brief()))?, m, q)
+        .map_err(|e| format!("over a source serving short and interrupted reads: {e}"))
+}
+
 /// Compares the real answer with the model. Ok(number of entries yielded) or Err(message).
 pub fn check_query(bytes: &[u8], m: &Model, q: &Query) -> Result<usize, String> {
     let got = run_query(bytes, q).map_err(|e| format!("{} -> {e}", q.brief()))?;
+    check_result(got, m, q)
+}
+
+fn check_result(got: Vec<Entry>, m: &Model, q: &Query) -> Result<usize, String> {
     let want = model_query(m, q);
     let same = got.len() == want.len()
         && got.iter().zip(want.iter()).all(|(g, &i)| g.0 == m.entries[i].0 && g.1 == m.entries[i].1);
